@@ -111,7 +111,13 @@ class FlagList(Signature):
         if self.__flags__ is None:  # pragma: no cover
             raise AttributeError("Error: __flags__ not set!")
 
-        self._flags.append(self.__flags__(val))
+        try:
+            self._flags.append(self.__flags__(val))
+
+        except ValueError:
+            # an algorithm identifier we do not know cannot be preferred by us,
+            # but it must not make the signature that lists it unreadable
+            pass
 
     @flags.register(bytearray)
     def flags_bytearray(self, val):
